@@ -140,8 +140,23 @@ def roundtrip(chk, d, idx, methods, header, cargs, default_hash):
     rb = res["results"][0]
     f2 = rb.get("flags_out")
     problems = []
+    def split_overrides(fl):
+        # --override-abi pairs are kept per ABI in a map: their relative order is not part of the configuration (what they select is
+        # compared through the bindings below); everything else is compared as a list
+        rest, ov, k = [], [], 0
+        while k < len(fl):
+            if fl[k] == "--override-abi" and k + 1 < len(fl):
+                ov.append(fl[k + 1])
+                k += 2
+            else:
+                rest.append(fl[k])
+                k += 1
+        return rest, sorted(ov)
     if f1 != f2:
-        problems.append("flags do not round-trip: %s -> %s" % (f1, f2))
+        if f2 is not None and split_overrides(f1) == split_overrides(f2):
+            obs["override_abi_pairs_reordered"] = 1
+        else:
+            problems.append("flags do not round-trip: %s -> %s" % (f1, f2))
     if ra.get("ok") != rb.get("ok") or ra.get("hash") != rb.get("hash"):
         problems.append("bindings of the original builder and of the builder parsed back from its flags differ (%s vs %s)" % (
             (ra.get("ok"), ra.get("hash"), ra.get("err_kind")), (rb.get("ok"), rb.get("hash"), rb.get("err_kind"))))
